@@ -76,4 +76,52 @@ def wstallOp : List String → String
     | _, _ => "BADLINE"
   | l => if l.getLast? == some "PANIC" then propfail "panic" else "BADLINE"
 
+/-- `cstall <client> <T ms> <-> | result@is_timeout@elapsed`: the peer never completes the TCP handshake -/
+def cstallOp : List String → String
+  | [_client, tms, _, res] =>
+    if res == "PANIC" then propfail "panic" else
+    match tms.toNat?, res.splitOn "@" with
+    | some t, [r, tf, e] =>
+      match e.toNat? with
+      | some el =>
+        if r == "setup" then "ok skipped:accept-queue-could-not-be-filled"
+        else if r == "HANG" then propfail "connect-blocked-far-beyond-the-timeout"
+        else if r.startsWith "ok" then propfail "send-succeeded-without-a-connection"
+        else if el > 4 * t + 1500 then propfail "connect-returned-late"
+        else if tf != "t" then propfail "timeout-error-does-not-identify-itself-as-timeout"
+        else "ok"
+      | none => "BADLINE"
+    | _, _ => "BADLINE"
+  | l => if l.getLast? == some "PANIC" then propfail "panic" else "BADLINE"
+
+/-- `shut slowquit <client> | t1 t2 t3 r3 quitseen r0` and `shut atreturn <client> <k> | k idle quits eofs` (C09: what
+    holds at the moment `shutdown` returns, and its promptness) -/
+def shutOp : List String → String
+  | ["slowquit", _client, res] =>
+    match res.splitOn " " with
+    | [t1, t2, t3, r3, seen, r0] =>
+      match t1.toNat?, t2.toNat?, t3.toNat? with
+      | some t1, some t2, some t3 =>
+        if r0 != "ok" then propfail s!"send-in-flight-at-shutdown-did-not-complete:{r0}"
+        else if seen != "1" then propfail "connection-in-use-at-shutdown-not-closed-when-its-send-finished"
+        else if t1 > 700 then propfail "shutdown-not-prompt"
+        else if t2 > 700 then propfail "second-shutdown-waited-for-a-connection-being-closed"
+        else if r3 != "shutdown" then propfail s!"send-after-shutdown:{r3}"
+        else if t3 > 700 then propfail "send-after-shutdown-waited-for-a-connection-being-closed"
+        else "ok"
+      | _, _, _ => "BADLINE"
+    | ["setup-failed"] => propfail "setup-failed"
+    | _ => if res == "PANIC" then propfail "panic" else "BADLINE"
+  | ["atreturn", _client, _k, res] =>
+    match res.splitOn " " with
+    | [_, idle, quits, eofs] =>
+      match idle.toNat?, quits.toNat?, eofs.toNat? with
+      | some idle, some quits, some eofs =>
+        if quits < idle then propfail s!"shutdown-returned-before-every-idle-connection-got-QUIT:{quits}/{idle}"
+        else if eofs < idle then propfail s!"idle-connection-not-closed-after-shutdown:{eofs}/{idle}"
+        else "ok"
+      | _, _, _ => "BADLINE"
+    | _ => if res == "PANIC" then propfail "panic" else "BADLINE"
+  | l => if l.getLast? == some "PANIC" then propfail "panic" else "BADLINE"
+
 end LV.Driver.PoolOp
